@@ -394,3 +394,67 @@ mod tests {
         );
     }
 }
+
+/// Read-only structural snapshot of a tree (verification hook, feature `verif`).
+#[cfg(feature = "verif")]
+#[derive(Debug, Clone, PartialEq, Eq, Hash)]
+pub enum VerifTreeSnap {
+    Empty {
+        ignore_case: bool,
+    },
+    Node {
+        prefix: String,
+        regex: String,
+        compiled: bool,
+        ignore_case: bool,
+        children: Vec<VerifTreeSnap>,
+    },
+    Leaf {
+        pattern: String,
+        regex: String,
+        compiled: bool,
+        ignore_case: bool,
+        /// (id, rendering of the value) sorted by id
+        values: Vec<(String, String)>,
+    },
+}
+
+#[cfg(feature = "verif")]
+fn verif_snapshot_item<V>(item: &Item<V>, render: &dyn Fn(&V) -> String) -> VerifTreeSnap {
+    match item {
+        Item::Empty(ignore_case) => VerifTreeSnap::Empty { ignore_case: *ignore_case },
+        Item::Node(node) => VerifTreeSnap::Node {
+            prefix: node.regex.original.clone(),
+            regex: node.regex.regex.clone(),
+            compiled: node.regex.compiled.is_some(),
+            ignore_case: node.regex.ignore_case,
+            children: node.children.iter().map(|c| verif_snapshot_item(c, render)).collect(),
+        },
+        Item::Leaf(leaf) => {
+            let mut values: Vec<(String, String)> = leaf.values.iter().map(|(id, v)| (id.clone(), render(v))).collect();
+            values.sort();
+
+            VerifTreeSnap::Leaf {
+                pattern: leaf.regex.original.clone(),
+                regex: leaf.regex.regex.clone(),
+                compiled: leaf.regex.compiled.is_some(),
+                ignore_case: leaf.regex.ignore_case,
+                values,
+            }
+        }
+    }
+}
+
+#[cfg(feature = "verif")]
+impl<V> RegexTreeMap<V> {
+    pub fn verif_snapshot(&self, render: &dyn Fn(&V) -> String) -> VerifTreeSnap {
+        verif_snapshot_item(&self.root, render)
+    }
+}
+
+#[cfg(feature = "verif")]
+impl<V> UniqueRegexTreeMap<V> {
+    pub fn verif_snapshot(&self, render: &dyn Fn(&V) -> String) -> VerifTreeSnap {
+        self.tree.verif_snapshot(render)
+    }
+}
